@@ -204,7 +204,7 @@ class Info:
         self.classified = a.fclass is not None and a.kind in ("exc", "res")
         self.S = static_holds(cfg, cf, idx) if self.classified else set()
         self.strategies = [e for e in post if e["ev"] == "STRATEGY"]
-        self.budgets = [e for e in post if e["ev"] == "BUDGET"]
+        self.budgets = [e for e in post if e["ev"] == "BUDGET" and not e.get("ext")]   # ext: another consumer's turn
         self.granted = [e for e in self.budgets if e["granted"]]
         self.refused = [e for e in self.budgets if not e["granted"]]
         self.retry_metrics = [e for e in post if e["ev"] == "METRIC" and e["event"] == "retry"]
